@@ -10,8 +10,8 @@ CHECKS = {
          "Specs rich in multi-key Meta are generated K times in fresh processes and twice in one process; gen,gen / gen,example,edit,example / example,gen / stray-file histories are run through the real cmd/goa binary over one directory; every difference in file list, bytes or mtime of a pre-existing example file is a violation keyed by file role.",
          "Identical command lines and output paths across runs (the header comment embeds them); designs goa cannot generate (C01) are skipped; two same-process regeneration differences are listed known findings."),
  "C10": (E2, "runtime monitoring of generator runs: generated gRPC designs (payload shapes x streaming kinds x metadata mappings x hostile names) run through the real goa generators in a fresh process each; the emitted .proto is parsed by the lab's own strict proto3 parser and compared with the spec (field numbers, uniqueness, one rpc per method with the designed streaming direction); the generated Go is compiled against stand-in *.pb.go files that follow protoc-gen-go's naming algorithm",
-         "A fixed matrix plus PRNG-generated gRPC designs; every generated proto file is parsed and judged against the spec; every generated gRPC package is type-checked against the stand-in message API; generator panics/timeouts are violations keyed by stack.",
-         "protoc/protoc-gen-go are absent: well-formedness is decided by the lab's proto3 parser and the Go API by stand-in pb.go files (an assumption, stated in the evidence). The message round-trip clause is decided only where the stand-in runtime (pbrt loopback) can carry it; designs hit by the open known findings cannot be driven."),
+         "A fixed matrix plus PRNG-generated gRPC designs; every generated proto file is parsed and judged against the spec; every generated gRPC package is type-checked against the stand-in message API; generator panics/timeouts are violations keyed by stack. Runtime half: one driver process per compiling design runs the REAL generated client -> in-process loopback (pbrt, tap events req_md/req/resp/header/trailer/status) -> generated server -> recording stub; valid payloads/results over the boundary classes, every streamed message in order (client, server, bidi), boundary probes on both sides of every validation rule sent through the generated client AND as hand-built protobuf messages; offline oracle: tree received == tree sent (+defaults), metadata placement, stub never invoked on an invalid message.",
+         "protoc/protoc-gen-go are absent: well-formedness is decided by the lab's proto3 parser and the Go API by stand-in pb.go files (an assumption, stated in the evidence). The loopback transcribes grpc-go's observable semantics (metadata rules, header/trailer delivery, status conversion) and normalises messages to what proto3 carries; designs hit by the open generation-time findings do not compile and are not driven; response headers/trailers cannot be driven on the pinned tree (finding D11); declared errors are counted, not judged (C05 owns them); the status code of a rejection (goa answers Unknown, not InvalidArgument) is counted, not judged."),
  "C11": (E2, "runtime monitoring: instrumented roots/expressions record every DSL/Prepare/Validate/Finalize callback of the real eval.RunDSL; phase-barrier automaton + reference topological order + error accounting over the recorded log",
          "Every digraph on <=4 labelled roots (cyclic ones included) x every registration order is run through the real eval engine (exhaustive for that sub-space), plus random 5-6 root cases with dynamic registration and error scripts; the callback log is judged by an independent automaton.",
          "Trusts the instrumented test roots; dependency targets never registered and ReportError from Prepare/Finalize are outside the envelope."),
@@ -47,6 +47,8 @@ CHECKS.update({
  "C05": (E1, E1TECH + "; literal status table and declared error responses from the spec", "Every declared error (default type: 8 flag combinations, wrapped/joined; custom types), undeclared service errors, plain Go errors and hand-encoded decode failures are provoked; status, goa-error header, body, WriteHeader count and the client's error are judged.", E1NOTE + " Nil error formatter (as goa example passes)."),
  "C06": (E1, E1TECH + "; recording Auther scripted by accept/reject vectors; reference evaluation 'exists requirement, all schemes accept'", "Every accept/reject vector over the schemes of the effective requirements, with credentials from class alphabets, explicit/implicit mappings, NoSecurity and inheritance; callbacks' arguments, scopes and the method's execution are judged.", E1NOTE),
  "C08": (E1, E1TECH + "; reference projection from the spec's views; response relabelling at the tap", "Per defined view the stub returns (result, view); wire members, goa-view header and the client's value are compared with the reference projection; responses relabelled with undefined views must be refused.", E1NOTE),
+ "C07": (E1, "runtime monitoring of generator output against the running server: generated designs (openapi profile: multiple routes, file servers, parameters in every location, security, errors) run through the real generators; the four emitted documents are parsed (own OpenAPI-3 loader, kin-openapi for validity, swagger-2 structural checks), JSON and YAML renderings compared value by value, and the documented operations compared with the routes actually mounted on the generated server (VerifMuxTables hook + requests served)", "Per accepted design: documents load and validate; JSON == YAML as values; every mounted (verb, path) is documented and every documented operation is served; parameters (name, location, required) match the design.", E1NOTE + " OpenAPI validity is judged by the rules the lab implements plus kin-openapi's loader; vendor extensions ignored."),
+ "C14": (E1, E1TECH + "; the lab's own evaluator of the OpenAPI-3 subset goa emits (oaeval/oajudge) judges every request/response of the C04 boundary workload against the documented schemas; the generated server's verdict is compared (schema accepts <=> server runs the method; response conforms to the documented response); kin-openapi's openapi3filter runs as a counted cross-check", "Boundary probes on both sides of every validation rule, removed required attributes, wrong kinds, hand-encoded requests; for each, schema verdict vs server verdict; served responses (results, declared errors) vs documented responses.", E1NOTE + " Findings are keyed by trigger class of the triaged root cause; server-side validation defects owned by C04 appear here under the same trigger names."),
  "C20": (E1, "Go race detector + runtime monitoring: the generated server built with -race is driven by 2/16/64 client goroutines (PRNG-chosen yields inside the stub); every concurrent exchange must be observationally equal to the sequential baseline of the same case; helper hammer (muxer, encoders, error encoder, pattern validator, samplers) with per-operation expected results; race log parsed", "Mixed valid/invalid/error cases against one mounted server per design, 3 rounds per concurrency level, overlap measured (max in flight, overlapping class pairs); race reports de-duplicated by function pair.", "A clean race-detector run means no race on the schedules exercised. " + E1NOTE),
 })
 
